@@ -306,3 +306,14 @@ Proof.
   destruct (if negb (zlen b1 =? 0) then chk (inb b1 (zlen b1 - 1)) (if getz b1 (zlen b1 - 1) =? 13 then chk (slice_ok b1 0 (zlen b1 - 1)) (Ok (sub b1 0 (zlen b1 - 1))) else Ok b1) else Ok b1) as [b2| | |]; simpl in H; try discriminate.
   destruct (zlen b2 =? 0) eqn:E; [discriminate|]. inversion H; subst. apply Z.eqb_neq in E. pose proof (zlen_nonneg l). lia.
 Qed.
+
+Lemma cigar_optype_lookups_total_gen :
+  forall ct, 0 <= ct -> safe (c11_Consumes ct) /\ safe (c11_OpString ct).
+Proof. intros ct H. split; [exact (Consumes_safe ct H)|exact (OpString_safe ct)]. Qed.
+
+Lemma cigar_accessors_total_gen :
+  forall unmapped pos c len,
+    safe (record_end unmapped pos c) /\ safe (cigar_is_valid c len) /\ safe (lengths_loop 0 0 c).
+Proof.
+  intros. split; [exact (record_end_safe _ _ _)|split; [exact (cigar_is_valid_safe _ _)|exact (lengths_loop_safe _ _ _)]].
+Qed.
